@@ -394,7 +394,7 @@ func (g *flowGen) importize() {
 func (g *flowGen) finish() {
 	p := g.p
 	p.NumFns = g.nfn
-	p.ConcurrentOK = !p.hasKind(KF64) // (a constant fallback value carries no execution number)
+	p.ConcurrentOK = !p.hasKind(KF64) && !p.anyPkgVarColl() // (a constant fallback value carries no execution number; a package-level variable is shared)
 	p.GoTag = []string{"go1.21", "", "go1.20", "go1.18"}[p.nameOffset()%4]
 	p.PadLines = (p.nameOffset()/17)%4 == 0
 	p.InVarLit = !p.Generic && !p.InMethod && (p.nameOffset()/13)%6 == 0
@@ -415,6 +415,9 @@ func (g *flowGen) finish() {
 	}
 	if p.InVarLit {
 		feat["directive-in-package-level-func-literal"] = true
+	}
+	if p.anyPkgVarColl() {
+		feat["collection-argument-is-a-foreign-package-level-variable"] = true
 	}
 	if p.hasKind(KTwinA) && p.hasKind(KTwinB) {
 		feat["twin-packages"] = true
